@@ -10,7 +10,9 @@
 //   history   lookups, cancels, replies from 1-3 servers (any order, duplicated, stale, server failures), clock advances
 //             under a virtual monotonic clock; callbacks that start lookups / cancel other lookups; lock-step model.
 //   udp       the same histories, but datagrams travel over real UDP sockets from fake servers bound to
-//             127.0.0.{1,2,3}:53 inside a private network namespace (UdpSocket + fd event path).
+//             127.0.0.{1,2,3}:53 inside a private network namespace (UdpSocket + fd event path); the servers also send
+//             well-formed replies of 4097..9000 bytes whose records straddle / lie behind the client's 4096-byte
+//             receive buffer: the client can only have received the first 4096 bytes, and is judged on those.
 //   wrap      one long history of more than 65536 lookups on one client (id wrap-around).
 #include "common/vh.hpp"
 #include "c15_ref.hpp"
@@ -69,6 +71,7 @@ const char *status_name(int s) {
 // datagram the client actually consumed is shown to the model before the client sees it.
 bool g_real_net = false;
 uint64_t g_queries_sent = 0;
+uint64_t g_recv_longer_than_buffer = 0;
 Bytes g_last_query;
 std::function<void(const uint8_t *, size_t, const struct sockaddr_in &)> g_on_client_recv;
 std::set<int> g_server_fds;
@@ -88,7 +91,10 @@ extern "C" ssize_t __wrap_recvfrom(int fd, void *buf, size_t len, int flags, str
     if (n >= 0 && g_on_client_recv && !g_server_fds.count(fd) && from && fromlen && *fromlen >= sizeof(struct sockaddr_in)) {
         struct sockaddr_in sin;
         memcpy(&sin, from, sizeof sin);
-        g_on_client_recv(static_cast<const uint8_t *>(buf), size_t(n), sin);
+        // the model is shown what the caller's buffer can really hold: with MSG_TRUNC-style flags the return value may exceed it
+        size_t held = size_t(n) < len ? size_t(n) : len;
+        if (size_t(n) > len) ++g_recv_longer_than_buffer;
+        g_on_client_recv(static_cast<const uint8_t *>(buf), held, sin);
     }
     return n;
 }
